@@ -171,6 +171,8 @@ def gen_dag(
             body = {"b": "multi", "t": nname, "k": n_out}
         else:
             body = rng.choice([{"b": "tag", "t": nname}, {"b": "tag", "t": nname}, {"b": "sum", "k": rng.randint(0, 3)}, {"b": "const", "v": rand_value(rng)}])
+            if rng.random() < 0.05:
+                body = {"b": "genexp", "k": rng.randint(0, 3)}
         extra: dict[str, Any] = {}
         if in_ren:
             extra["inRen"] = in_ren
@@ -472,7 +474,7 @@ def inject_failure(rng: random.Random, case: dict, how_many: int = 1) -> dict:
     failing = []
     for gi, ni in fns[:how_many]:
         n = c["program"][gi]["nodes"][ni]
-        n["body"] = {"b": "fail", "t": "E_" + n["name"]}
+        n["body"] = {"b": "fail", "t": rng.choice(["E_", "E_", "Z_"]) + n["name"]}       # Z_: an exception object that is falsy
         failing.append(f"{gi}:{n['name']}")
     c["failing"] = failing
     return c
